@@ -826,7 +826,23 @@ impl<'a> World<'a> {
             let newfds: Vec<RawFd> = after.difference(&before).cloned().collect();
             let reached = match &r {
                 Ok(Ok(_)) => true,
-                Ok(Err(ServerError::ShutdownEvent)) => kill_pos.map(|kp| lp < kp).unwrap_or(true),
+                // a call that reports shutdown may or may not have handled the events that came
+                // before the kill switch's in the batch (the property does not say): decide from
+                // what can be observed - a new connection in the table, or the 503 / hang-up at
+                // the client that was first in the accept queue
+                Ok(Err(ServerError::ShutdownEvent)) => {
+                    let _ = (lp, kill_pos);
+                    !newfds.is_empty()
+                        || self.pending_accept.front().map_or(false, |c| {
+                            let cl = &self.clients[*c];
+                            if cl.closed {
+                                return false;
+                            }
+                            let mut pfd = libc::pollfd { fd: cl.fd, events: libc::POLLIN | 0x2000, revents: 0 };
+                            let n = unsafe { libc::poll(&mut pfd, 1, 0) };
+                            n > 0 && pfd.revents & (libc::POLLIN | libc::POLLHUP | 0x2000 | libc::POLLERR) != 0
+                        })
+                }
                 _ => !newfds.is_empty(),
             };
             if reached {
